@@ -55,6 +55,13 @@ class ParameterType(enum.Enum):
     raise TypeError(f'Type {self} is not compatible with value: {value}')
 
   def assert_correct_type(self, value: ParameterValueTypes) -> None:
+    try:
+      self._assert_correct_type(value)
+    except OverflowError:
+      # int(inf), or an int beyond the float range: not a value of this type.
+      self._raise_type_error(value)
+
+  def _assert_correct_type(self, value: ParameterValueTypes) -> None:
     if self.is_numeric() and float(value) != value:
       self._raise_type_error(value)
 
